@@ -36,6 +36,24 @@ CLAIMED['C12'] = (
     'harness subclasses of Vector/VectorParsable with param objects built without their constructor; item values '
     '0..8; slice positions -4..4; library classes only through their seed vectors (concrete)', '5 C12')
 
+CLAIMED['C03'] = (
+    'for every framing class (TLS record, SSL 2.0 record, TLS handshake messages, SSH packets and banner, MySQL, TPKT, '
+    'COTP, OpenVPN-TCP, PostgreSQL, LDAP short and long form) the solver decides, with the declared length a full-width '
+    'symbolic integer and symbolic body/suffix bytes: 0 < n <= len, n == length declared by a reference header encoder '
+    'written from the specification, same object and n for the first n bytes alone, followed by a symbolic suffix, or '
+    'followed by 40000 bytes; parse_mutable removes exactly n bytes; parse_exact_size succeeds iff n == len; a failed '
+    'parse leaves the buffer untouched',
+    'bodies <= 4 bytes (quick) / 6 (thorough), suffix <= 2; inner messages of SSH/SSL2/handshake frames are concrete '
+    'seed messages; reference header encoders in symcheck/harness/framing.py are trusted', '5 C03')
+CLAIMED['C04'] = (
+    'premises of the reassembly argument decided by the solver per framing class: every proper prefix of a frame (cuts '
+    'inside header and length fields, header integers full width) is answered with not-enough-data asking for >= 1 and '
+    '<= the bytes really missing, a proper prefix is never accepted, a complete frame is never answered with '
+    'not-enough-data; frames from the real compose() with every cut position; plus the reader loop itself over two '
+    'composed records with symbolic payloads and symbolic delivery surplus',
+    'payloads <= 4 bytes, two records, surplus <= 2 (quick) / 3 (thorough) bytes on the first three deliveries; '
+    'longer streams follow by the induction sketched in DESIGN.md 5 C04, which is not mechanised', '5 C04')
+
 NOT_APPLICABLE = {
     'C19': 'asymptotic claim (work linear in input size for n, 2n, 4n, ...): a bounded symbolic execution fixes the '
            'input size, so a pass says nothing about growth; the total-work bound needs an amortised argument over '
